@@ -5,7 +5,7 @@ cd "$(dirname "$0")/.." || exit 2
 run() {
   id=$1; shift
   [ -z "$(git -C /repo status --porcelain --untracked-files=no)" ] || { echo "/repo not clean"; exit 1; }
-  git -C /repo apply harmless/$id.patch || exit 1
+  git -C /repo apply "$PWD/harmless/$id.patch" || exit 1
   for p in "$@"; do
     r=$(./check $p 2>&1 | grep -E '^(VIOLATION|OK|broken|check could)' | tail -2 | cut -c1-200 | tr '\n' '|')
     echo "$id $p $r"
